@@ -1,4 +1,4 @@
-HOOK_COMMITS = ["74bf6ff", "82c1591", "9aba3ab", "7b80cf4", "aa851e5", "4f43e9e", "0d9cb6c", "ac67f30", "f87827f", "49c2432", "902f705"]
+HOOK_COMMITS = ["74bf6ff", "82c1591", "9aba3ab", "7b80cf4", "aa851e5", "4f43e9e", "0d9cb6c", "ac67f30", "f87827f", "49c2432", "902f705", "c680004"]
 
 ALL = ["C%02d" % i for i in range(1, 21)]
 
@@ -22,9 +22,9 @@ TEXTS = {
     "C02": dict(text="Coq theorem over an action-level concurrent model (all programs of Set/SetIfAbsent/GetIfPresent/GetEntry/Compute*/Invalidate and automatic removals, all schedules, any number of threads): replaying the "
                      "operations in the order of their decisive atomic actions through the sequential model yields exactly the observed return values and the same table; the second phase of a two-phase compute equals "
                      "the whole operation executed atomically at that instant. Engine: concurrent histories of the real cache (growing/shrinking/evicting underneath) checked per key for a linearization by a Wing-Gong search whose "
-                     "oracle is the extracted model; compute callbacks counted.",
+                     "oracle is the extracted model; compute callbacks counted. The atomicity of the table's Compute/Get that this model assumes is now itself a theorem about the table's protocol model (C15_concurrent_update_atomic, _applied_exactly_once, _get_regular) tied to map.go by the tbl engine, which C02 also runs.",
                design_ref="DESIGN.md section 5, C02",
-               note="Trusted: Coq kernel, extraction, OCaml search, Go harness. Meta-assumption: atomicity of the table's Get/Compute (C15) and sequential consistency of sync/atomic. No expiry calculator in the theorem.",
+               note="Trusted: Coq kernel, extraction, OCaml search, Go harness. Atomicity of the table's Get/Compute: C15's protocol theorems + tbl engine (one step per bucket update / key read in that model); sequential consistency of sync/atomic assumed. No expiry calculator in the theorem.",
                technique="Coq proof (simulation invariant over all schedules of an action-level model) + linearizability search on recorded concurrent histories with the extracted model as oracle"),
     "C14": dict(text="Coq theorem C14_no_stranding_any_population (theories/DrainInv.v): for ANY number of writers, readers (C14_no_stranding_with_readers) and explicit CleanUp callers, every maintenance task they spawn and EVERY schedule of the small-step drain-status model "
                      "(one step = one atomic access), a configuration in which nothing can move has all threads finished, the write buffer empty, the status idle and the lock free. Proof: an inductive invariant over counts of threads per "
@@ -48,10 +48,15 @@ TEXTS = {
                      "iteration yields every binding exactly once and the size counter equals their number; C15_resize_keeps_everything - grow/shrink re-hash every entry into the new table and keep exactly the bindings, clear leaves none. "
                      "Underneath: SWAR zero-byte search without false negatives, setByte/getByte/broadcast byte algebra, marks visited in slot order, a key stored at most once in the chain its hash selects. "
                      "The model is replayed call by call against the implementation (results, invocation counts, size, table length, per-bucket chain layout, iteration order) through growth to hundreds of buckets and back. "
-                     "Concurrent behaviour (lookups/updates/iteration during a resize) is checked by implementation oracles only.",
+                     "Concurrency (theories/HashMapConc.v, HashMapConcProofs.v): a small-step model of the protocol between Compute, resize and the lock-free Get (root-bucket locks, resize-in-progress and newer-table re-checks, the resizing flag, "
+                     "buckets copied under their locks in any order, grow-before-insert with retry, shrink attempts that give up, publication before release) for ANY number of threads, EVERY schedule and all hash functions: "
+                     "C15_concurrent_table_is_the_map - the published table always holds exactly the abstract map (nothing lost, nothing resurrected across resizes); C15_concurrent_update_atomic / _applied_exactly_once - a function is given the abstract map's binding "
+                     "under the lock of the current table's bucket and is applied exactly once per call whatever retries happen; C15_concurrent_get_regular - a Get returns a binding its key had between its table load and its return; bucket locks and the flag are mutual exclusions "
+                     "(inductive invariant over counts of lock holders / resizers, ghost history of the map). The tbl engine replays hook-to-hook schedules of the real table on the extracted model. "
+                     "Iteration during a resize and Clear under concurrency are checked by implementation oracles only.",
                design_ref="DESIGN.md section 0.2 and section 5, C15",
-               note="Trusted: Coq kernel, extraction, OCaml replayer, Go harness, verif exports of internal/hashmap. maphash is an input (the theorems hold for every hash function). The concurrent part is testing with property oracles, not proof.",
-               technique="Coq refinement proof (table model = finite map, all hash functions and operation sequences, across resizes) + executable table model with call-by-call correspondence; concurrent oracles on free-running executions"),
+               note="Trusted: Coq kernel, extraction, OCaml replayers, Go harness, verif exports and hook points of internal/hashmap, the runtime's goroutine wait reasons (self-checked). maphash is an input (the theorems hold for every hash function). In the protocol model a table version is a key->binding store and a bucket's update, a bucket's copy and a Get's read are one step each (the layout inside a chain is the sequential theorems').",
+               technique="Coq refinement proof (table model = finite map, all hash functions and operation sequences, across resizes) + Coq invariant proof of the concurrency protocol over all schedules + executable models with call-by-call and schedule-by-schedule correspondence; concurrent oracles on free-running executions"),
     "C16": dict(text="Coq theorem C16_seq_fifo (theories/MpscFifo.v): for every pair of capacities NewMPSC accepts and every sequence of complete pushes and pops the chunked queue model answers exactly like a FIFO list of "
                      "capacity roundup32(maximum) - through every growth step (new buffer, JUMP marker, link) and every move of the consumer into the next buffer: every accepted element returned exactly once in order, "
                      "nothing else returned, an offer refused exactly when the queue holds its maximum (C16_refused_exactly_when_full, C16_size_bounded). The model (push split into reserve/publish) is compared with the "
